@@ -375,6 +375,17 @@ fn setup(sc: &Scenario, tag: &str) -> Option<Live> {
     let dir = workdir().join(format!("c14_{tag}"));
     let _ = std::fs::remove_dir_all(&dir);
     std::fs::create_dir_all(&dir).ok()?;
+    // The in-process legs must not grow the event map: a growth that moves the mapping under a
+    // concurrent reader is the recorded finding `mapping-moved-under-concurrent-reader`, and in this
+    // process it would kill the monitor itself (debug builds grow in 2 KiB steps). The backing file is
+    // therefore sized up front - the state a store is in after earlier growths - and growth under
+    // concurrent readers is exercised only by the child-process growth scenarios, where a crash can
+    // be classified against the journal of base moves.
+    if is_debug_build() {
+        if let Ok(f) = std::fs::File::create(dir.join("event.map")) {
+            let _ = f.set_len(4096 * 1024);
+        }
+    }
     let store = Store::new(&dir, vec![]).ok()?;
     let mut model = Model::new();
     for i in sc.prepopulate.iter() {
